@@ -167,6 +167,7 @@ def main(argv=None):
                         continue
                     print(f'  known finding for {ob} not confirmed: {why}')
                 violations.append((r, cname, c))
+    bounded_errors = [b for b in bounded if b.get('error') or not b.get('cases')]
     for b in bounded:
         if b.get('violations'):
             for v in b['violations']:
@@ -221,10 +222,12 @@ def main(argv=None):
         tail = '' if reproduced else ' no-failing-input-found'
         print(f'VIOLATION property={prop} replay={path}{tail}')
     if not violations:
-        if crashes:
+        if crashes or bounded_errors:
             exit_code = 3
             for r in crashes:
                 print(f'CRASH unit={r.unit.name}\n{r.crash}')
+            for b in bounded_errors:
+                print(f"CRASH bounded check '{b.get('name', '?')[:80]}': {b.get('error') or 'zero cases executed'}")
         elif undecided:
             exit_code = 2
             for r, why in undecided:
